@@ -43,6 +43,29 @@ theorem pop_none {q : List Node} (h : pop q = none) : q = [] := by
   | nil => rfl
   | cons a q => simp [popWith] at h
 
+/-- when child discovery succeeds with some children, they come from the kind tests (not from a guard) -/
+theorem childNodes_ok_cases {L : Limits} {pvid : Nat} {o : PyObj} {d : Nat} {cs : List Node}
+    (h : childNodes L pvid o d = .ok cs) :
+    cs = [] ∨ (depthStop (d : Int) (L.maxDepth : Int) = false ∧ branchChildren L pvid (d + 1) o childBranches = .ok cs) := by
+  unfold childNodes at h
+  split at h
+  · simp only [Except.ok.injEq] at h; exact Or.inl h.symm
+  · split at h
+    · simp only [Except.ok.injEq] at h; exact Or.inl h.symm
+    · rename_i _ hd
+      cases hb : branchChildren L pvid (d + 1) o childBranches with
+      | ok cs' =>
+        rw [hb] at h
+        simp only [Except.ok.injEq] at h
+        subst h
+        exact Or.inr ⟨by simpa using hd, rfl⟩
+      | error m =>
+        rw [hb] at h
+        simp only at h
+        split at h
+        · simp only [Except.ok.injEq] at h; exact Or.inl h.symm
+        · simp at h
+
 /-! ### `attach` touches the table (or the root ids) only -/
 
 @[simp] theorem attach_queue (p : Option Nat) (c : VarId) (s : BState) : (attach p c s).queue = s.queue := by
